@@ -8,7 +8,7 @@ R5  precedence table of parser::_expression.
 R7  routing chain: lexeme -> symbol -> parser factory -> core_parser node -> core operation; every parser factory is overridden by core_parser.
 """
 from ..expr import LocalEnv, canon, show
-from ..facts import AnalysisBroken, short, src, walk, walk_nolambda
+from ..facts import AnalysisBroken, kids, short, src, walk, walk_nolambda
 from ..tables import arm_of, enum_paths, switch_arms
 from .. import cfg
 
@@ -537,6 +537,7 @@ def run(ctx):
     r1_r2(ctx, fs)
     r3(ctx, fs)
     r4(ctx, fs)
+    r4c(ctx, fs)
     r5(ctx, fs)
     r6(ctx, fs)
     r7(ctx, fs)
@@ -793,6 +794,75 @@ class First:
             return self.stmt(f, c[-1], t) if c else NEXT
         v, e = self.expr(f, n, t)
         return e or NEXT
+
+
+def r4c(ctx, fs):
+    """speculative look-ahead: between `c_pos = pos` and `backtrack(c_pos)` the parser only *looks*; an error() raised there on the very token the
+    speculation starts with rejects inputs that the alternative chosen after the backtrack would have accepted."""
+    rid = 'C16.R4'
+    enum = [e['name'] for e in fs.enum('riddle::symbol')['enumerators']]
+    F = First(fs, enum)
+    n_regions = 0
+    for f in fs.defined():
+        if f.get('class') != 'riddle::parser' or f.body is None:
+            continue
+        env = F.env(f)
+        for comp in f.nodes():
+            if comp.get('k') != 'CompoundStmt':
+                continue
+            sts = list(kids(comp))
+            for i, s in enumerate(sts):
+                if s.get('k') != 'DeclStmt':
+                    continue
+                ds = [d for d in kids(s) if d.get('k') == 'VarDecl' and isinstance(d.get('init'), dict) and canon(d['init'], env, subst=False) == PAR + 'pos']
+                if not ds:
+                    continue
+                cpos = ds[0]
+
+                def is_bt(m):
+                    return m.get('k') == 'CXXMemberCallExpr' and m.get('callee_name') == PAR + 'backtrack' and any(x.get('k') == 'DeclRefExpr' and x.get('dloc') == cpos.get('loc') for x in walk(m))
+                # region: the statements after the declaration up to (excluding) the first one that backtracks
+                j = i + 1
+                while j < len(sts) and not any(is_bt(m) for m in walk(sts[j])):
+                    j += 1
+                if j >= len(sts):
+                    continue
+                region, decide = sts[i + 1:j], sts[j]
+                n_regions += 1
+                bad = []
+                for t in enum:
+                    out = NEXT
+                    for r in region:
+                        out = F.stmt(f, r, t)
+                        if out != NEXT:
+                            break
+                    if out != REJECT:
+                        continue
+                    # alternatives: what follows each backtrack(c_pos) inside the deciding statement
+                    for bt in [m for m in walk(decide) if is_bt(m)]:
+                        # the statements after the backtrack in its own block
+                        par = f.parent(bt)
+                        while par is not None and par.get('k') != 'CompoundStmt':
+                            bt, par = par, f.parent(par)
+                        if par is None:
+                            continue
+                        after = list(kids(par))
+                        after = after[[k for k, x in enumerate(after) if x is bt][0] + 1:]
+                        o2 = NEXT
+                        for a in after:
+                            o2 = F.stmt(f, a, t)
+                            if o2 != NEXT:
+                                break
+                        if o2 == ACCEPT:
+                            bad.append(t)
+                            break
+                ctx.instance(rid, [f.id, 'speculation', short(cpos.get('loc'))], {'function': f.id, 'look_ahead_from': short(cpos.get('loc')), 'tokens_rejected_inside_although_an_alternative_accepts_them': bad[:12]})
+                if bad:
+                    ctx.finding(rid, f.id, 'speculation:%d' % n_regions, '%s: the speculative scan that starts at %s calls error() when the first token is one of %s, although the alternative taken after '
+                                'backtrack() accepts such a token: a look-ahead must only decide, not reject (e.g. "(2.0 + x) * 3.0" dies while the parser is merely checking whether "(" opens a cast)' % (
+                                    short(f.name), short(cpos.get('loc')), ', '.join(bad[:8]) + (' ...' if len(bad) > 8 else '')), node=cpos)
+    if n_regions < 3:
+        raise AnalysisBroken('C16.R4c: fewer than three speculative look-ahead regions found (%d)' % n_regions)
 
 
 def r3(ctx, fs):
